@@ -225,6 +225,22 @@ CHECKS = {
          'recording stub in place of Crazyflie; directions as documented (+x forward, +y left, +z up, positive yaw rate = '
          'left); the (up to one period stale) height used for landing is not judged',
          'DESIGN.md §3 C17', 'E3'),
+ 'C12': ('exploration',
+         'exhaustive enumeration of flash geometries, image lengths and flash-write reply patterns on the real bootloader code against a simulated target',
+         'The real Bootloader.start_bootloader/_internal_flash/flash and Cloader._update_info/upload_buffer/write_flash run '
+         'against a simulated two-target bootloader device for every combination of page size {16,25,26,50,64; thorough 11 '
+         'sizes plus 256/1024}, buffer pages {1,2,3,10(,4)}, flash pages {4,8,128}, start page {0,1,3}, override page '
+         '{none,2; thorough also at the flash end}, target {stm32,nrf51} and every image length from 1 to '
+         '2*buffer_pages*page_size+2 plus capacity-1/capacity/capacity+1. For boundary lengths every pattern of per-attempt '
+         'flash-write answers over {ok, negative, command lost, reply lost, 5 kinds of stale packet first} with at most 2 '
+         'deviations is executed, and all reachable patterns without bound for geometries needing 1, 2, 3 (thorough 4) '
+         'flash-writes; the public flash() path runs via .bin and two-target .zip files. Judged from the packet log and '
+         'final flash arrays: exact image placement, nothing outside the image page range or beyond flash, refusal before '
+         'any packet, <= 31-byte frames, exactly-once byte coverage at the right buffer offset, bounded retries, abort '
+         'without further packets.',
+         'simulated device = my reading of the bootloader protocol; virtual clock; replies delayed past the timeout into a '
+         'later command are not modelled; bounded = at most 8 sends of one command; last-page bytes beyond the image end not judged',
+         'DESIGN.md §3 C12', 'E1'),
 }
 
 ALL = ['C%02d' % i for i in range(1, 21)]
